@@ -72,6 +72,10 @@ type scenario struct {
 	AutoFinish     bool   `json:"auto_finish"` // End happens right after the initial frames, racing the registration
 	Mode           string `json:"mode"`        // "direct" | "rtsp" | "flv" | "hls"
 	FollowUp       bool   `json:"follow_up"`   // request again with an all-ok camera afterwards
+	GluePlay       int    `json:"glue_play"`   // this many frames travel in the same TCP write as the PLAY answer
+	GlueKA         int    `json:"glue_ka"`     // this many frames travel in the same write as a keep-alive answer ...
+	KAGlues        int    `json:"ka_glues"`    // ... for the first KAGlues keep-alive requests
+	BigFrames      bool   `json:"big_frames"`  // slices of ~1 KiB, so that a few frames show in the stream's KiB counter
 
 	frames []fakecam.Frame // generated programme; nil = fakecam.SimpleFrames
 }
@@ -85,6 +89,9 @@ func (sc *scenario) key() string {
 	}
 	if sc.URLShape != "" {
 		fmt.Fprintf(&b, "url=%s ", sc.URLShape)
+	}
+	if sc.GluePlay > 0 || sc.GlueKA > 0 {
+		fmt.Fprintf(&b, "glue-play=%d glue-keepalive=%dx%d ", sc.GluePlay, sc.GlueKA, sc.KAGlues)
 	}
 	fmt.Fprintf(&b, "audio=%v creds=%s dir=%v end=%s/%d auto=%v cons=%d live=%d paced=%v mode=%s", sc.Audio, sc.Creds, sc.DirRoute, fakecam.After(sc.End), sc.EndVariant, sc.AutoFinish, sc.Consumers, sc.Live, sc.Paced, sc.Mode)
 	return b.String()
@@ -144,6 +151,15 @@ func (sc *scenario) expect() (e expectation, faultStep fakecam.Step, okBefore in
 	return mustSucceed, faultStep, okBefore
 }
 
+// closeAcceptable: the server may hang up on a requester in the middle of its
+// handshake exactly when the camera deviates at some step or ends the play phase
+// by itself (the pulled stream ends under the requester); a camera that keeps
+// playing healthy frames gives no reason for it.
+func (sc *scenario) closeAcceptable() bool {
+	e, _, _ := sc.expect()
+	return e != mustSucceed || (sc.AutoFinish && fakecam.After(sc.End) != fakecam.Continue)
+}
+
 // handshakeMayStall: some step may leave the client waiting for bytes that never
 // come (silence, or a malformed answer that announces more than it delivers).
 func (sc *scenario) handshakeMayStall() bool {
@@ -200,6 +216,11 @@ func streamGoroutines(detail bool) (map[string]int, string) {
 			root = root[:i]
 		}
 		root = strings.TrimPrefix(root, ipchubPrefix)
+		// the server's permanent goroutines (listener, protocol multiplexer, signal
+		// hook) come up asynchronously after start and belong to no stream or session
+		if strings.HasPrefix(root, "service.(*Service).") || strings.HasPrefix(root, "network/socket/listener.(*Listener).") {
+			continue
+		}
 		out[root]++
 		if detail {
 			dump.WriteString(blk)
@@ -298,6 +319,8 @@ type result struct {
 	regAtOnce  bool // the stream was in the registry the moment the request returned
 	keepAlives int
 	delivered  int
+	gluedPlay  int
+	gluedKA    int
 }
 
 func (r *result) failf(check, format string, a ...any) {
@@ -369,6 +392,10 @@ func framesFor(sc *scenario) []fakecam.Frame {
 	}
 	if sc.Mode == "flv" { // the feeder needs material until the HTTP answer is flushed
 		extra = 800
+	}
+	extra += sc.GlueKA * sc.KAGlues
+	if sc.BigFrames {
+		return fakecam.SimpleFramesSized(sc.Initial+sc.Live+extra, sc.Audio, 3000, 900)
 	}
 	return fakecam.SimpleFrames(sc.Initial+sc.Live+extra, sc.Audio)
 }
@@ -456,9 +483,13 @@ func runScenario(sc *scenario, rq requester) *result {
 	base := takeBaseline()
 
 	info, camPass, md5 := userinfoFor(sc)
+	if sc.Initial < sc.GluePlay {
+		sc.Initial = sc.GluePlay
+	}
 	frames := framesFor(sc)
 	script := fakecam.Script{Steps: sc.Steps, User: sc.User, Pass: camPass, PassIsMD5: md5, SDP: mediah.SDP(esgen.H264, sc.Audio),
 		Frames: frames, Initial: sc.Initial, SessionTimeout: sc.SessionTimeout,
+		GluePlay: sc.GluePlay, GlueKeepAlive: sc.GlueKA, KeepAliveGlues: sc.KAGlues,
 		OnPlay: func() { config.VerifTimeouts(playTimeout, heartbeat) }}
 	if sc.AutoFinish {
 		script.AutoFinish, script.AutoFinishVariant = fakecam.After(sc.End), sc.EndVariant
@@ -478,6 +509,19 @@ func runScenario(sc *scenario, rq requester) *result {
 	defer closeCam()
 	reqPath, canon, wantURL, pattern := routeFor(sc, id, cam.HostPort(), info)
 	defer route.Del(pattern)
+
+	// a recording consumer that is attached the moment the pulled stream enters the
+	// registry (schedule point inside media.Regist, before the play loop starts):
+	// it must see every frame the camera sends, from the very first one
+	rec0 := mediah.NewRec("from-start")
+	var rec0Stream *media.Stream
+	media.VerifSetSched(func(point string, obj interface{}) {
+		if st, ok := obj.(*media.Stream); ok && point == "regist.loaded" && rec0Stream == nil && st.Path() == canon {
+			rec0Stream = st
+			st.StartConsumeNoGopCache(rec0, media.RTPPacket, "c20-from-start")
+		}
+	})
+	defer media.VerifSetSched(nil)
 
 	exp, _, _ := sc.expect()
 	rq.setFeed(func() { cam.Send(-1, 16, 0) })
@@ -515,7 +559,19 @@ func runScenario(sc *scenario, rq requester) *result {
 	if r.outcome == "panic" {
 		res.failf("requester-panics", "the request for %s panicked instead of returning a not-found style result: %s", reqPath, r.detail)
 	}
-	if exp == mustSucceed && r.outcome != "stream" {
+	if r.outcome == "closed" {
+		evid.Class("requester saw close during handshake")
+		if sc.closeAcceptable() {
+			// "a not-found style error or an orderly close": everything else is still owed
+			for i := 0; i < cam.ConnCount() && !sc.playMayStall(); i++ {
+				cam.Finish(i, fakecam.AfterEOF, 0) // (a tolerated garbage ending leaves the camera playing)
+			}
+		} else {
+			res.cam = cam.Conns()
+			res.failf("pull-fails", "the camera stays healthy and keeps playing, but the server closed the requester's connection during the handshake (%s); camera saw: %s", r.detail, renderConns(res.cam))
+		}
+	}
+	if exp == mustSucceed && r.outcome != "stream" && r.outcome != "closed" {
 		res.cam = cam.Conns()
 		res.failf("pull-fails", "every step of the camera was ok (or challenged once with the credentials of the route URL), but the request ended with %q; camera saw: %s", r.outcome, renderConns(res.cam))
 	}
@@ -531,7 +587,11 @@ func runScenario(sc *scenario, rq requester) *result {
 		r.outcome, res.outcome = "stream", "stream, but not in the requester's format"
 	}
 	if r.outcome == "stream" {
-		playPhase(res, sc, rq, cam, r.s, canon, wantURL, frames, &recs)
+		playPhase(res, sc, rq, cam, r.s, canon, wantURL, frames, &recs, rec0, rec0Stream)
+	}
+	media.VerifSetSched(nil)
+	if rec0Stream != nil {
+		recs = append(recs, rec0)
 	}
 	res.cam = cam.Conns()
 	rq.release()
@@ -569,7 +629,7 @@ func renderConns(cs []fakecam.ConnRecord) string {
 
 // playPhase checks the success half of the property and then ends the stream
 // the way the scenario says.
-func playPhase(res *result, sc *scenario, rq requester, cam *fakecam.Camera, s *media.Stream, canon, wantURL string, frames []fakecam.Frame, recs *[]*mediah.Rec) {
+func playPhase(res *result, sc *scenario, rq requester, cam *fakecam.Camera, s *media.Stream, canon, wantURL string, frames []fakecam.Frame, recs *[]*mediah.Rec, rec0 *mediah.Rec, rec0Stream *media.Stream) {
 	end := fakecam.After(sc.End)
 	racing := sc.AutoFinish && end != fakecam.Continue // the camera may already be gone
 	// (1) registered under the requested path
@@ -693,6 +753,37 @@ func playPhase(res *result, sc *scenario, rq requester, cam *fakecam.Camera, s *
 	}
 	if c := cam.Conns(); len(c) > 0 {
 		res.keepAlives = c[len(c)-1].KeepAlives
+		res.gluedPlay, res.gluedKA = c[len(c)-1].GluedWithPlay, c[len(c)-1].GluedWithKeepAlive
+	}
+	// (5) everything the camera has sent so far — including what travelled in the same
+	// segment as the PLAY answer or a keep-alive answer — reached the consumer that was
+	// there from the start, in order; the stream's byte counter agrees; the pull is up
+	// (only where every answer of the handshake was well-formed: after a tolerated
+	// malformation the byte stream may legitimately be out of step)
+	if e, _, _ := sc.expect(); e == mustSucceed && rec0Stream == s && len(cam.Conns()) == 1 {
+		var want []fakecam.Frame
+		settled := mediah.WaitFor(bound, func() bool {
+			n := cam.NextFrame(-1)
+			want = filter(frames[:min(n, len(frames))])
+			return rec0.Len() >= len(want) && cam.NextFrame(-1) == n
+		})
+		got := rec0.Got()
+		if !settled || len(got) != len(want) {
+			res.failf("delivery-from-start", "the camera has sent %d frames (%d in the PLAY answer's write, %d in keep-alive answers' writes); the consumer attached before the play loop started received %d", len(want), res.gluedPlay, res.gluedKA, len(got))
+		} else if why := compareDelivery(got, want, len(want)); why != "" {
+			res.failf("delivery-from-start", "consumer attached before the play loop started: %s", why)
+		} else {
+			bytes := 0
+			for _, f := range want {
+				bytes += len(f.Data) + 4 // interleaved unit: 4-byte prefix + packet
+			}
+			if kib := s.Info(false).Size; kib != bytes/1024 {
+				res.failf("byte-counter", "the camera sent %d bytes in %d interleaved units, the stream counts %d KiB (want %d)", bytes, len(want), kib, bytes/1024)
+			}
+		}
+		if c := cam.Conns(); c[0].PeerClosed || media.Get(canon) != s {
+			res.failf("pull-dropped", "all frames were well-formed and the camera is still sending, but the pull ended (peer closed=%v, registered=%v): %s", c[0].PeerClosed, media.Get(canon) == s, renderConns(c))
+		}
 	}
 	// ---- end of the play phase
 	switch end {
